@@ -20,7 +20,7 @@ EXPLANATION = (
     "of DEHB's PAUSE decision contains no condition the resume path in _suggest does not test, synchronous Hyperband pauses "
     "every trial that reaches its milestone. NOT decided: the speculative early-removal scoring.")
 
-FLOOR = {"S1": 4, "S2": 3, "S3": 2, "S4": 4, "S5": 1, "S6": 3, "S7": 3}
+FLOOR = {"S1": 4, "S2": 3, "S3": 2, "S4": 4, "S5": 2, "S6": 3, "S7": 3}
 
 
 def s1(ctx, rep):
@@ -227,8 +227,15 @@ def s5(ctx, rep):
     q = c.methods["_quantiles"]
     sel_ok = any(isinstance(n, ast.If) and any(a[0] == "truth" and a[1].endswith("." + flag) and a[2] is False for a in atoms_of(n.test, True))
                  for n in walk_shallow(q.node))
+    # every writer of the flag is a stop: the flag must be what _quantiles filters on
+    writers = [x for m_ in c.methods.values() for x in walk_shallow(m_.node) if isinstance(x, ast.Assign)
+               and any(isinstance(t, ast.Attribute) and t.attr == flag for t in x.targets)]
+    rep.put(sel_ok, "S5", "guarded_by", "PopulationBasedTraining._quantiles selects clone sources among trials that are not stopped", q, None,
+            f"filter `not state.{flag}`; {len(writers)} writer(s) of the flag",
+            f"_quantiles does not exclude trials with `state.{flag}`: a trial stopped at max_t (its checkpoint is deleted with "
+            "delete_checkpoints=True) keeps its score and is chosen as the trial to clone from")
     if not sel_ok:
-        raise AnchorError("PBT._quantiles no longer selects among trials with `not state.stopped`")
+        return
     # consumer: pop and use as checkpoint_trial_id
     pops = [x for x in walk_shallow(cons.node) if isinstance(x, ast.Call) and fn_name(x) in ("pop", "popleft") and queue in U(x.func.value)]
     if len(pops) != 1:
